@@ -473,3 +473,68 @@ def k_sort_by(st, fr, rv):
     d['stage'] = 1
     j = d['j']
     return st.ex.call_value(st, d['f'], [TypedPtr(s, j - 1, s.elem_ty), TypedPtr(s, j, s.elem_ty)], None, None)
+
+
+# ---- BinaryHeap as a sequence; pop selects a maximum by calling the element type's Ord::cmp from MIR
+@model('BinaryHeap::new', '<BinaryHeap as Default>::default', 'BinaryHeap::with_capacity')
+def m_heap_new(c):
+    return Seq(None, [])
+
+
+@model('BinaryHeap::push')
+def m_heap_push(c):
+    s = as_seq(c.st, c.args[0])
+    v = c.args[1]
+    if s.elem_ty is None and isinstance(v, (Struct, Enum)):
+        s.elem_ty = v.ty
+    s.force(c.st).append(v)
+    return UNIT
+
+
+@model('BinaryHeap::len')
+def m_heap_len(c):
+    return usize(as_seq(c.st, c.args[0]).length(c.st))
+
+
+@model('BinaryHeap::is_empty')
+def m_heap_is_empty(c):
+    return z3.BoolVal(as_seq(c.st, c.args[0]).length(c.st) == 0)
+
+
+@model('BinaryHeap::pop')
+def m_heap_pop(c):
+    s = as_seq(c.st, c.args[0])
+    n = s.length(c.st)
+    if n == 0:
+        return none()
+    if n == 1:
+        v = s.load(0, None, c.st)
+        del s.elems[0]
+        return some(v)
+    ty = s.elem_ty
+    if not ty:
+        raise Unsupported('BinaryHeap::pop: element type unknown')
+    short = str(ty).split('::')[-1]
+    return c.native('heap_pop', {'s': s, 'cmp': FnItem(f'<{short} as Ord>::cmp'), 'best': 0, 'i': 1, 'n': n, 'stage': 0})
+
+
+@cont('heap_pop')
+def k_heap_pop(st, fr, rv):
+    d = fr.data
+    s = d['s']
+    if d['stage'] == 1:
+        disc = rv.disc if isinstance(rv, Enum) else rv
+        if isinstance(disc, int):
+            less = disc in (-1, 255, (1 << 64) - 1)
+        else:
+            less = st.branch(disc == z3.BitVecVal(-1, disc.size()), 'heap max')
+        if less:
+            d['best'] = d['i']
+        d['i'] += 1
+        d['stage'] = 0
+    if d['i'] >= d['n']:
+        v = s.load(d['best'], None, st)
+        del s.elems[d['best']]
+        return st.ex.native_return(st, fr, some(v))
+    d['stage'] = 1
+    return st.ex.call_value(st, d['cmp'], [TypedPtr(s, d['best'], s.elem_ty), TypedPtr(s, d['i'], s.elem_ty)], None, None)
